@@ -119,6 +119,7 @@ def case_strategy(draw: Any, proto: str) -> Dict[str, Any]:
         "opening": opening,
         "requests": reqs,
         "pace": pace,
+        "sched": draw(st.integers(0, 999)),
         "pause_dt": draw(st.sampled_from([0.5, 3.0])),
         "kernel": draw(st.sampled_from([0, 1000, 70000])),
         "window": window,
@@ -422,7 +423,7 @@ def run_case(case: Dict[str, Any]) -> CaseInfo:
         return await (drive_h1(env, case) if h1 else drive_h2(env, case))
 
     for be in BACKENDS:
-        obs = run_sim(be, cfg, programs, scenario)
+        obs = run_sim(be, cfg, programs, scenario, sched=case.get("sched", 0))
         (judge_h1 if h1 else judge_h2)(case, obs)
     classes = ["opening=" + case["opening"], "pace=" + case["pace"]]
     big = False
